@@ -10,6 +10,11 @@
 //	(c) every byte string of length <= 2 (all 256 bytes) and of length 3 over 40 structural bytes
 //	(d) nesting ladders of 18 recursive constructs at depths 10..10^4 (10^6 thorough)
 //	(e) run-after-accept on every prefix / deletion / duplication of 40 small side-effect-free programs
+//	(f) every sequence of <= 3 character units (invalid bytes, characters whose case mapping changes
+//	    the byte length, ...) and every single byte inside every lexical container: before / between /
+//	    after the template tags, in strings, comments, heredocs, names (families2.go)
+//	(g) complete programs: every operand (string / heredoc interpolation, closure, ... x body) at every
+//	    list site where the parser speculates and parses the operand again; run (families2.go)
 //
 // Oracle: parse returns program xor positioned diagnostic; no Go panic; fuel <= budget(n); no
 // worker death; for (e) the run of an accepted mutant never ends in a nil-operand crash.
@@ -94,8 +99,8 @@ func (a *acc) oneAlt(id string, fam string, mode int, src, alt string, note stri
 func (a *acc) oneX(id string, fam string, mode int, src string, run bool, alt string, note string) {
 	mkCase := func(fam string, mode int, src string, run bool, note string) kase {
 		k := mkCase(fam, mode, src, run, note)
-		if i := strings.IndexByte(alt, 0); i >= 0 {
-			k.AltKind, k.Alt = alt[:i], alt[i+1:]
+		if p := strings.SplitN(alt, "\x00", 3); len(p) == 3 {
+			k.AltKind, k.Alt, k.Alt0 = p[0], p[1], p[2]
 		}
 		return k
 	}
@@ -658,11 +663,12 @@ func caseFromID(id string) kase {
 			return mkCase("c-bytes", m, stems(m)[st]+string(b), false, "")
 		}
 	case "unit":
-		if len(p) == 3 {
+		if len(p) == 4 {
 			ci, _ := strconv.Atoi(p[1])
-			q, _ := strconv.Atoi(p[2])
-			if ci < len(unitContainers) && q < len(unitSeqs) {
-				return mkCase("f-units-in-containers", unitContainers[ci].Mode, unitSrc(ci, q), false, "")
+			l, _ := strconv.Atoi(p[2])
+			q, _ := strconv.Atoi(p[3])
+			if ci < len(unitContainers) && l >= 1 && l <= 4 && q < len(unitSeqs(l)) {
+				return mkCase("f-units-in-containers", unitContainers[ci].Mode, unitSrc(ci, l, q), false, "")
 			}
 		}
 	case "rep":
@@ -672,9 +678,9 @@ func caseFromID(id string) kase {
 				n[i], _ = strconv.Atoi(p[i+1])
 			}
 			if bodies := reparseBodies(n[3]); n[1] < len(reparseSites) && n[2] < len(reparseCarriers) && n[4] < len(bodies) {
-				src, alt := reparseSrc(n[0], n[1], n[2], bodies[n[4]])
+				src, alt, alt0 := reparseSrc(n[0], n[1], n[2], bodies[n[4]])
 				k := mkCase("g-reparsed-operands", n[0], src, true, "")
-				k.AltKind, k.Alt = reparseCarriers[n[2]].Kind, alt
+				k.AltKind, k.Alt, k.Alt0 = reparseCarriers[n[2]].Kind, alt, alt0
 				return k
 			}
 		}
@@ -772,14 +778,21 @@ func main() {
 	for mode := 0; mode < 2; mode++ {
 		for si := range reparseSites {
 			for ci := range reparseCarriers {
+				if quick && mode == 1 && reparseCarriers[ci].Kind != "interpolated-string" {
+					continue // template mode differs in the lexer only: quick keeps it for the string carriers
+				}
 				shards = append(shards, pool.Shard{Kind: "reparse", Arg: reparseShard{Mode: mode, Site: si, Carrier: ci, MaxLen: bodyLen}})
 			}
 		}
 	}
-	// (f) character units inside lexical containers: both tiers
+	// (f) character units inside lexical containers: sequences of <= 3 units (thorough: 4)
+	unitLen := 3
+	if !quick {
+		unitLen = 4
+	}
 	for ci := range unitContainers {
-		for from := 0; from < len(unitSeqs); from += 1250 {
-			shards = append(shards, pool.Shard{Kind: "unit", Arg: unitShard{C: ci, From: from, To: from + 1250}})
+		for from := 0; from < len(unitSeqs(unitLen)); from += 1250 {
+			shards = append(shards, pool.Shard{Kind: "unit", Arg: unitShard{C: ci, L: unitLen, From: from, To: from + 1250}})
 		}
 	}
 	// (c)
@@ -992,7 +1005,7 @@ func main() {
 	c.Set("ladders_skipped_over_8MB", skipped)
 	c.Set("base_programs", len(basePrograms))
 	c.Set("unit_alphabet", fmt.Sprintf("%q", unitAlphabet))
-	c.Set("unit_sequences", len(unitSeqs))
+	c.Set("unit_sequences", fmt.Sprintf("%d (all 256 bytes, <= %d units, runs %v)", len(unitSeqs(unitLen)), unitLen, unitRuns))
 	c.Set("unit_containers", len(unitContainers))
 	c.Set("reparse_sites", reparseSites)
 	c.Set("reparse_carriers", reparseCarriers)
@@ -1030,7 +1043,7 @@ func main() {
 	if os.Getenv("VERIF_C01_FAM") == "" && (outcomes["ok"] == 0 || outcomes["parse"] == 0 || outcomes["run:ok"] == 0 || len(outcomes) < 5) {
 		c.HarnessError("vacuous: outcomes %v", outcomes)
 	}
-	c.Finish(execs, execs, execs, fmt.Sprintf("every input of families (a)-(e) inside the bound parsed once on the instrumented lexer+parser (family e also run); states = inputs; %d corpus files, token strings <= %d over %d tokens x %d stems x 2 modes, ladders to depth %d", len(files), maxLen, len(alphabet), len(plainStems)+len(templStems), depths[len(depths)-1]))
+	c.Finish(execs, execs, execs, fmt.Sprintf("every input of families (a)-(g) inside the bound parsed once on the instrumented lexer+parser (families e and g also run); states = inputs; %d corpus files, token strings <= %d over %d tokens x %d stems x 2 modes, ladders to depth %d", len(files), maxLen, len(alphabet), len(plainStems)+len(templStems), depths[len(depths)-1]))
 }
 
 // altArg packs the neutral twin of a family (g) case for checkAlt ("" for every other family).
@@ -1038,7 +1051,7 @@ func altArg(k kase) string {
 	if k.Alt == "" {
 		return ""
 	}
-	return k.AltKind + "\x00" + k.Alt
+	return k.AltKind + "\x00" + k.Alt + "\x00" + k.Alt0
 }
 
 func firstLines(s string, n int) string {
